@@ -81,6 +81,7 @@ def run_flow(spec):
             tot["gapheat"] += abs(credited)
             lost_total = 0.0
             scale_total = sc
+            floor_total = 1e-13 * cp * float(np.sum(core._sc_mfr)) * T0
             exact_all = True
             for k, a in enumerate(asms):
                 reg = regs[k]
@@ -94,6 +95,7 @@ def run_flow(spec):
                     mag = max(mag, cpa * float(np.dot(m1, np.abs(t1 - t0))))
                 # (absolute floor: round-off of representing T ~ T0 in the enthalpy flow of the assembly's streams)
                 floor = 1e-13 * cpa * sum(float(np.sum(m1)) for (n1, m1, t1) in observe.streams(reg)) * T0
+                floor_total += floor
                 lost = dP - dH                       # heat that left the assembly's coolant+ducts in this step
                 cred = float(np.sum(deb[k]))         # heat the gap was credited from this assembly
                 lost_total += lost
@@ -130,7 +132,7 @@ def run_flow(spec):
             if exact_all:
                 rs = lost_total - dHg
                 worst["step"] = max(worst["step"], abs(rs) / scale_total)
-                if abs(rs) > TOL * scale_total:
+                if abs(rs) > TOL * scale_total + floor_total:
                     fails.setdefault("core_step_balance", "step %d: assemblies lose %.6e, gap gains %.6e"
                                      % (i, lost_total, dHg))
 
@@ -154,7 +156,10 @@ def run_flow(spec):
         resid = (H + Hg - P) / max(P, 1e-300)
         o.metric("sweep_residual_rel" + ("" if clean else "_excluded_classes"), abs(resid))
         if clean and P > 0:
-            o.check(abs(resid) <= 1e-9, "core_sweep_balance", "coolant %.8e + gap %.8e - power %.8e = %.3e of P"
+            # (absolute floor: per-step round-off of representing T ~ T0 in every enthalpy flow, accumulated over the sweep)
+            mtot = float(np.sum(core._sc_mfr)) + sum(float(np.sum(m)) for a in asms for _, m, t in observe.streams(a.active_region))
+            sweep_floor = 1e-13 * cp * mtot * T0 * len(r.z)
+            o.check(abs(H + Hg - P) <= 1e-9 * P + sweep_floor, "core_sweep_balance", "coolant %.8e + gap %.8e - power %.8e = %.3e of P"
                     % (H, Hg, P, resid))
         o.metric("gap_balance_rel", worst["gap"])
         o.metric("asm_credit_rel", worst["asm"])
